@@ -201,7 +201,7 @@ def run(ctx):
     quick = ctx.tier == 'quick'
     full = list(range(1, 11))
     small = [1, 2, 3, 4, 8]
-    max_full, max_small = (4, 6) if quick else (5, 7)
+    max_full, max_small = (4, 5) if quick else (5, 7)
     mc = ctx.tlc('Lexer', lexer_cfg(full, max_full + 1), coverage=True, name='mc')
     ctx.require_coverage(mc, ['Read'])
     cases, dev = {}, {}
@@ -242,13 +242,21 @@ def run(ctx):
     ctx.cov['replay']['strings']['disagreements'] = bad
     # where references are substituted (stray delimiters, adjacent references, partial references)
     rl = 6 if quick else 8
-    rmc = ctx.tlc('SymRefs', 'SPECIFICATION Spec\nCONSTANTS MaxLen = %d\nINVARIANT OnlyReferencesReplaced\n'
-                             'CHECK_DEADLOCK FALSE\n' % (rl + 1), coverage=True, name='mc-symrefs')
+
+    def rcfg(ml, alpha, inv):
+        return ('SPECIFICATION Spec\nCONSTANTS MaxLen = %d\n Alphabet = {%s}\nINVARIANT %s\nCHECK_DEADLOCK FALSE\n'
+                % (ml, ', '.join(map(str, alpha)), inv))
+
+    rmc = ctx.tlc('SymRefs', rcfg(rl + 1, [1, 2, 3, 4, 5], 'OnlyReferencesReplaced'), coverage=True, name='mc-symrefs')
     ctx.require_coverage(rmc, ['Read'])
-    rexp = ctx.tlc('SymRefsExport', 'SPECIFICATION Spec\nCONSTANTS MaxLen = %d\nINVARIANT Export\nCHECK_DEADLOCK FALSE\n'
-                   % rl, workers=1, name='export-symrefs', count=False, timeout=3000)
+    rcases = {}
+    for nm, ml, alpha in (('all', rl, [1, 2, 3, 4, 5]), ('delimiters', rl + 1, [1, 2, 3, 4])):
+        rexp = ctx.tlc('SymRefsExport', rcfg(ml, alpha, 'Export'), workers=1, name='export-symrefs-' + nm, count=False,
+                       timeout=3000)
+        for c in rexp.printed_json('REFS'):
+            rcases[json.dumps(c['src'])] = c
     rprobes = []
-    for c in rexp.printed_json('REFS'):
+    for c in rcases.values():
         rprobes.extend(refs_probes(c))
     rres = run_probes(ctx, rprobes, 'symbol references', pack=12)
     rbad = 0
@@ -300,7 +308,7 @@ def run(ctx):
     ctx.cov['rule'] = ('every source of length <= %d over {a, blank, ", \', #, \\, e-acute, @[S]@, =, )} and of length '
                        '<= %d over {a, blank, ", \', @[S]@}, each as LIST (argv of a real process), STRING and :> text; '
                        'every here-document body of <= %d lines over 9 line kinds, with and without end marker; '
-                       'every source of length <= %d over {@, [, ], S, -} as :> text and soft-quoted string (8 symbols '
+                       'every source of length <= %d over {@, [, ], S, -} (one longer over {@, [, ], S}) as :> text and soft-quoted string (8 symbols '
                        'S..SSSSSSSS defined); '
                        'non-trivial = distinct (context, source) containing a quote, #, \\, reference or reserved word'
                        % (max_full, max_small, hl, rl))
